@@ -71,6 +71,14 @@ CHECKS = {
    text='The four transformations are a TLA+ program machine (MC_Transform): TLC checks same top, well-formedness, connectivity after every step of every program (branches indicated at most once) from every small decoded or marker-stripped start graph, and the attribute / branch clauses as action properties; recorded programs of 1-4 transformations of the real code on decoded, hand-built, edited and re-topped graphs are validated step by step by the trace specification J_Transform (no exception, same top, well-formed, connected, encodes and decodes to itself, clause per transformation); exact agreement with the specification functions is reported as drift.',
    note='graphs using both roles of an ambiguous reification (AMR :subset and :superset) are outside the precondition (O14)',
    technique='TLA+ program machine model-checked by TLC + step-by-step TLC trace validation of recorded transformation programs'),
+ 'C16': dict(engine='cli', design='5 C16, 4.11',
+   text='The run of the tool is a TLA+ machine (MC_CliRun: inputs in order, graphs in order, status accumulated): TLC checks exit = 1 iff --check and some graph of some input is bad, monotonicity of the status, one output per graph in order and termination for every sequence of up to 3 inputs of up to 2 good/bad graphs; every such sequence exported by TLC is run through the real command (files, stdin, subprocess sample) and TLC judges exit status and error-N metadata; Model.errors of the real code on all small and random triple lists x tops x models is judged by TLC against the specification of role validity and weak reachability.',
+   note='which graphs are bad in the command runs is taken from Model.errors, itself judged in the same check; one metadata entry per offending triple (O8)',
+   technique='TLA+ exit-status machine model-checked by TLC + replay of TLC-enumerated input sequences on the real command + TLC trace validation of Model.errors'),
+ 'C20': dict(engine='cli', design='5 C20, 4.11',
+   text='Cli.tla decodes an option record into an argument vector and the documented stage list (order, model and key functions each stage must receive, separators, exit status); TLC checks stage order, model-everywhere, exactly one layout stage and formatting-last over the whole option space (MC_CliOpts) and exports every option set with its plan; a seeded sample is replayed: the harness executes the exported plan with library calls and runs the real command (in-process main(), stdin or 1-2 files, 4% real subprocesses); TLC judges byte equality, exit status, one output per input graph, content invariance under formatting options, content preservation without normalisation options and the fixed-point clause.',
+   note='stage semantics are the library functions (covered by their own properties); F17 and F19 are open known findings with specification predicates as signatures; the fixed-point clause is judged on single-stream runs; random keys: exit status only',
+   technique='TLA+ model of option decoding and pipeline plumbing model-checked by TLC + spec-to-code replay of exported plans, judged by TLC'),
 }
 NOT_YET = 'check not built yet (build in progress, see DESIGN.md section 11)'
 
